@@ -1,7 +1,7 @@
 (** the assumption-free instances: the iterator / PrimeGenerator theorems with the model kernel plugged in *)
-From Coq Require Import NArith List Lia.
+From Coq Require Import NArith List Bool Lia.
 From PS Require Import Spec.Primes Spec.Cursor Model.Iterator Model.PrimeGen Model.CrossOff
-  Proofs.PrimeGenP Proofs.IteratorCor Proofs.KernelListP.
+  Proofs.PrimeGenP Proofs.IteratorCor Proofs.KernelListP Proofs.CountAddP.
 Import ListNotations.
 Local Open Scope N_scope.
 
@@ -30,3 +30,23 @@ Theorem prev_calls_model l1 maxKB nextDist prevDist maxGap cut : 16 <= maxKB -> 
     let P := rev (primes_between 0 s) in
     rs = map Val (firstn k P) ++ repeat (Val 0) (k - length P).
 Proof. intros K1 K2 HC. apply prev_calls_spec_pg; [apply erat_model_erat_spec; assumption|exact HC]. Qed.
+
+(** PrimeSieve::sieve / count_primes over the model kernel: 2, 3, 5 from the small table, the rest from the kernel on
+    [max(start, 7), stop]; the count is exactly pi(stop) - pi(start - 1) *)
+Definition sieve_model (l1 maxKB start stop : N) : list N :=
+  filter (fun p => (start <=? p) && (p <=? stop)) [2; 3; 5] ++
+  (if N.max start 7 <=? stop then erat_model l1 maxKB (N.max start 7) stop else []).
+
+Theorem sieve_model_spec l1 maxKB : 16 <= maxKB -> maxKB <= 8192 ->
+  forall start stop, stop <= MAX64 -> sieve_model l1 maxKB start stop = primes_between start stop.
+Proof.
+  intros K1 K2 start stop Hs. unfold sieve_model. rewrite (Proofs.CountAddP.small_primes_split start stop). f_equal.
+  destruct (N.leb_spec (N.max start 7) stop) as [Hle|Hgt].
+  - apply erat_model_spec; [exact K1|exact K2|lia|exact Hle|exact Hs].
+  - symmetry. apply primes_between_empty. exact Hgt.
+Qed.
+
+Theorem count_model_spec l1 maxKB : 16 <= maxKB -> maxKB <= 8192 ->
+  forall start stop, stop <= MAX64 ->
+  N.of_nat (length (sieve_model l1 maxKB start stop)) = count_primes_spec start stop.
+Proof. intros K1 K2 start stop Hs. rewrite (sieve_model_spec l1 maxKB K1 K2 start stop Hs). reflexivity. Qed.
